@@ -334,7 +334,7 @@ def rule_lenflow(ctx, rep):
                         src = nobb(symx.expr(F, B, copy_args(c)[0]))
                         if n != L:
                             ok, why = False, "the bulk copy moves %s elements but the block was sized for %s" % (symx.show(n), symx.show(L))
-                        if not (src[0] == "call" and src[2] in ("as_ptr", "as_mut_ptr") and _rooted_at_arg(src[3][0], 2)):
+                        if not (src[0] == "call" and src[2] in ("as_ptr", "as_mut_ptr", "into_boxed_slice") and _rooted_at_arg(src[3][0], 2)):  # (`Box::into_raw(v.into_boxed_slice())`: the buffer itself)
                             ok, why = False, "the bulk copy does not read from the start of the input container (%s)" % symx.show(src)
                 # (the bound of the iterator constructor's fill loop is judged by R-ITERLOOP's loop model)
                 if ok:
@@ -396,7 +396,33 @@ def rule_moveonce(ctx, rep):
             rets = [i for i, bl in enumerate(b["blocks"]) if bl["term"]["k"] == "return"]
             ok = True
             why = None
-            if len(copies) != 1 or len(sets) != 1:
+            boxed = [(bi, t) for bi, t in B.calls() if atomics.callee_of(t) == "<alloc::vec::Vec<T, A>>::into_boxed_slice" and t["args"] and _rooted_at_arg(symx.expr(F, B, t["args"][0]), 2)]
+            if len(copies) == 1 and not sets and len(boxed) == 1:
+                # the other way to disarm the source: `Box::into_raw(v.into_boxed_slice())`, copy out of *that* buffer, then free
+                # the buffer as `Box<ManuallyDrop<[T]>>` (storage released, elements not dropped)
+                (cbi, ct), (xbi, xt) = copies[0], boxed[0]
+                src = nobb(symx.expr(F, B, copy_args(ct)[0]))
+
+                def from_boxed(e):
+                    out = []
+                    find_calls(e, "into_boxed_slice", out)
+                    return bool(out)
+
+                frees = []
+                for bi, t3 in B.calls():
+                    c3 = atomics.callee_of(t3) or ""
+                    if c3.startswith("<alloc::boxed::Box<T") and c3.endswith("::from_raw") and t3["args"]:
+                        r3 = t3.get("resolved")
+                        targs = [F.ts(a["t"]) for a in (r3["args"] if isinstance(r3, dict) else []) if "t" in a]
+                        if targs and "ManuallyDrop" in targs[0] and from_boxed(nobb(symx.expr(F, B, t3["args"][0]))):
+                            frees.append(bi)
+                if not from_boxed(src):
+                    ok, why = False, "the bulk copy reads through a pointer taken from the Vec (%s) *before* `into_boxed_slice` gave the buffer away - that call may shrink and move the buffer, so the elements would be copied out of freed memory; the source must be the boxed slice's own pointer" % symx.show(src)[:80]
+                elif xbi not in dom.get(cbi, set()):
+                    ok, why = False, "the bulk copy does not come after `into_boxed_slice`"
+                elif not frees or not any(cbi in dom.get(fb, set()) and all(fb in dom.get(r, set()) for r in rets) for fb in frees):
+                    ok, why = False, "the boxed buffer is not released as `Box<ManuallyDrop<[T]>>` after the copy on every normal exit: its storage would leak, or the moved elements would be dropped a second time"
+            elif len(copies) != 1 or len(sets) != 1:
                 ok, why = False, "expected one bulk copy and one `set_len`, found %d and %d: the source Vec would drop the moved elements a second time (or keep them)" % (len(copies), len(sets))
             else:
                 (cbi, ct), (sbi, st) = copies[0], sets[0]
@@ -426,6 +452,7 @@ def rule_moveonce(ctx, rep):
                 continue
             if not any(F.ty(t)["k"] == "adt" and F.ty(t)["path"] == "alloc::boxed::Box" for t in b["inputs"]):
                 continue
+            b = inline.inlined(F, b["key"]) or b  # `dealloc_box_without_drop(src)`: a private helper shared with the Vec constructor
             B = cfg.Body(b)
             ok = False
             why = "the source Box is not released as `Box<ManuallyDrop<T>>`"
